@@ -78,6 +78,42 @@ func newReg(kind int) regAPI {
 			swap:  func(id int64) (int64, bool) { return dec(v.Swap(enc(id))) },
 			cas:   func(o, n int64) bool { return v.CompareAndSwap(enc(o), enc(n)) }}
 	}
+	if kind == 3 {
+		// pointers: every id has its own cell, and ALL cells hold the same contents - two
+		// different pointers are different values however equal their pointees are
+		var v sync2.AtomicValue[*pairV]
+		cells := map[int64]*pairV{}
+		var mu sync.Mutex
+		enc := func(id int64) *pairV {
+			if id == 0 {
+				return nil
+			}
+			mu.Lock()
+			defer mu.Unlock()
+			if cells[id] == nil {
+				cells[id] = &pairV{7, -7}
+			}
+			return cells[id]
+		}
+		dec := func(p *pairV) (int64, bool) {
+			if p == nil {
+				return 0, true
+			}
+			mu.Lock()
+			defer mu.Unlock()
+			for id, q := range cells {
+				if q == p {
+					return id, true
+				}
+			}
+			return -9, false
+		}
+		return regAPI{name: "*struct (equal pointees)",
+			load:  func() (int64, bool) { return dec(v.Load()) },
+			store: func(id int64) { v.Store(enc(id)) },
+			swap:  func(id int64) (int64, bool) { return dec(v.Swap(enc(id))) },
+			cas:   func(o, n int64) bool { return v.CompareAndSwap(enc(o), enc(n)) }}
+	}
 	var v sync2.AtomicValue[pairV]
 	dec := func(p pairV) (int64, bool) { return p.A, p.B == -p.A } // a torn value shows as B != -A
 	return regAPI{name: "struct{A,B int64}",
@@ -206,7 +242,7 @@ func c18seqSweep(c *core.Ctx) {
 	}
 	n := len(alphabet)
 	seqs := 0
-	for kind := 0; kind < 3; kind++ {
+	for kind := 0; kind < 4; kind++ {
 		for L := 1; L <= 4; L++ {
 			total := 1
 			for i := 0; i < L; i++ {
